@@ -218,6 +218,16 @@ def _expand(prog, caller_fi, caller_node, stmt, call, t, mode, target):
         tgt = mapping.get(p_, p_)
         if isinstance(a, ast.Name) and a.id == tgt:
             continue
+        if isinstance(a, ast.Constant) and p_ not in rebound:
+            # constant argument of a parameter the helper never rebinds: substitute it (constant propagation), so that
+            # a flag passed as a literal is still seen as a literal at the calls inside the helper
+            class _Subst(ast.NodeTransformer):
+                def visit_Name(self_, n):
+                    if n.id == tgt and isinstance(n.ctx, ast.Load):
+                        return ast.copy_location(ast.Constant(value=a.value), n)
+                    return n
+            body = [_Subst().visit(s_) for s_ in body]
+            continue
         asg = ast.Assign(targets=[ast.Name(id=tgt, ctx=ast.Store())], value=clone(a), type_comment=None)
         ast.copy_location(asg, call)
         ast.fix_missing_locations(asg)
